@@ -1,7 +1,16 @@
+import CharsetProof.Lemmas.CharsLeNow
 import CharsetProof.Lemmas.Total
+import CharsetProof.Lemmas.TotalOn
 import CharsetProof.Props.C02
 import CharsetProof.Props.C02b
+import CharsetProof.Props.C02c
 open Charset
+#print axioms C02_full
+#print axioms worldFull_totalOn
+#print axioms decodeNow_total_supported
+#print axioms targetsCoverSupported
+#print axioms fromBytesOn_total
+#print axioms supportedModelled
 #print axioms C02_from_bytes_total
 #print axioms C02_only_documented_error
 #print axioms C02_steps_zero_faults
